@@ -33,6 +33,7 @@ fn dispatch(prop: &str, ctx: &Ctx, replay: Option<&[String]>) -> bool {
     "C12" => p!(c12),
     "C13" => p!(c13),
     "C14" => p!(c14),
+    "C15" => p!(c15),
     _ => false,
   }
 }
